@@ -22,7 +22,7 @@ class SpecMixin(object):
         'prefix_of', 'suffix_of', 'contains', 'index_of', 'str_to_int', 'iff', 'distinct_keys',
         'null', 'isnull', 'in_re', 'last', 'card', 'real', 'tag_eq', 'obj_of', 'same_ghost',
         'str_of_int', 'length', 'ref_id', 'distinct', 'sig_mode', 'path_idx', 'slen', 'path_inv',
-        'is_bytes', 'as_bytes', 'init', 'repev', 'rp_cid', 'rp_mid', 'rp_status', 'as_ref',
+        'is_bytes', 'as_bytes', 'init', 'repev', 'rp_cid', 'rp_mid', 'rp_status', 'as_ref', 'same',
     ])
 
     # ------------------------------------------------------------------ entry points
@@ -251,6 +251,14 @@ class SpecMixin(object):
     def spec_real(self, e, st):
         (a,) = self._args(e, st)
         return self.coerce(a, REAL)
+
+    def spec_same(self, e, st):
+        """same(a, b): identical values (structural equality of the encodings), as opposed to python's ==
+        which identifies 1, 1.0 and True"""
+        a, b = self._args(e, st)
+        if a.ty != b.ty or len(a.t) != len(b.t):
+            self.oos('same() of different sorts %r / %r' % (a.ty, b.ty), e)
+        return SV(BOOL, zand([x == y for x, y in zip(a.t, b.t)]))
 
     def spec_as_ref(self, e, st):
         a = self.ev1(e.args[0], st)
@@ -722,6 +730,8 @@ class SpecMixin(object):
                 else:
                     st = self.havoc_objs(st, key, ty, objs)
             for g in sorted(mods['ghosts']):
+                if g in self.spec.local_ghosts:
+                    continue        # audit ghosts of the callee are invisible to its callers
                 st = st.copy()
                 self.ghost_get(st, g)
                 st.ghost[g] = fresh(self.spec.ghosts[g], 'G.' + g)
@@ -773,6 +783,31 @@ class SpecMixin(object):
         if extra_kw and kwarg is None and fi is not None:
             return self.raise_(st, 'TypeError', node), None
         has_splat = bool(star and (star['args'] or star['kwargs']))
+        splat_kw = star['kwargs'][0] if (star and star['kwargs']) else None
+
+        def from_splat(n, dflt):
+            """parameter n may be supplied by **d: d[n] when present, else the default (or an arbitrary value)"""
+            ty = self.param_type(c, n, fi)
+            if splat_kw is None:
+                return dflt
+            if isinstance(splat_kw.ty, TDict) and splat_kw.ty.k == STR and splat_kw.t:
+                has = self.dict_has(splat_kw, z3.StringVal(n))
+                got = self.dict_get(splat_kw, z3.StringVal(n))
+            elif splat_kw.ty == VAL:
+                dd = self.vobj(st, Val.vo(splat_kw.z))
+                has = self.dict_has(dd, z3.StringVal(n))
+                got = self.dict_get(dd, z3.StringVal(n))
+            else:
+                return dflt if dflt is not None else fresh(ty, 'splat_' + n)
+            base = dflt if dflt is not None else fresh(ty, 'splat_' + n)
+            g2 = self.coerce(got, ty)
+            b2 = self.coerce(base, ty)
+            if g2 is None or b2 is None:
+                g2 = self.coerce(got, VAL)
+                b2 = self.coerce(base, VAL)
+                if g2 is None or b2 is None:
+                    return fresh(ty, 'splat_' + n)
+            return self.ite(has, g2, b2)
         for n in names:
             if n in bound:
                 continue
@@ -791,8 +826,10 @@ class SpecMixin(object):
                         self.modinfo = saved
                 else:
                     bound[n] = self.const_sv(d)
+                if has_splat:
+                    bound[n] = from_splat(n, bound[n])
             elif has_splat:
-                bound[n] = fresh(self.param_type(c, n, fi), 'splat_' + n)
+                bound[n] = from_splat(n, None)
             else:
                 return self.raise_(st, 'TypeError', node), None
         if vararg is not None:
@@ -859,6 +896,23 @@ class SpecMixin(object):
             cache[c.qual] = name
         return cache[c.qual]
 
+    def apply_call_ghosts(self, st, c, env, node):
+        cur = getattr(self, 'contract', None)
+        if cur is None or not cur.ghost_on_call or self.call_depth or self.spec_mode:
+            return st
+        short = c.qual.split(':')[-1].split('.')[-1]
+        for text in cur.ghost_on_call.get(short, []):
+            tree = ast.parse(text.strip()).body[0]
+            if not (isinstance(tree, ast.Assign) and isinstance(tree.targets[0], ast.Name) and
+                    tree.targets[0].id in self.spec.ghosts):
+                self.oos('ghost_on_call statement must assign a declared ghost: %r' % text, node)
+            s2 = st.copy()
+            s2.env = dict(st.env)
+            for k, v in env.items():
+                s2.env['arg_' + k] = v
+            st = self.ghost_set(st, tree.targets[0].id, self.sp(tree.value, s2))
+        return st
+
     def call_contract(self, st, c, args, kw, node, recv=None, star=None):
         """A call of a @synchronized method goes through the wrapper verified under C10: it is either refused at once
         with ConflictError and no effect, or the body runs owning the exclusive slot (ghost excl) and the slot is the
@@ -920,6 +974,10 @@ class SpecMixin(object):
                 val = self.coerce(val, c.ret) or val
             return self.ok(st, val)
         self.check_call_requires(st, c, env, node)
+        st = self.apply_call_ghosts(st, c, env, node)
+        pre = st.copy()
+        pre.env = env
+        pre.old = None
         # preconditions
         for i, r in enumerate(c.requires):
             cond = self.spb(r, pre, +1)
